@@ -245,7 +245,22 @@ type vCase struct {
 	tokOnly       bool
 	kind          string
 	loc           []int // location id per entry of srcs (nil: all distinct)
+	wantc         []vWantC
+	wants         []vWant        // whole-value references whose original text every string-kind target must show
 	inline        map[int]string // entry index -> YAML text that IS the location ("vyaml:<text>"); srcs[i] is its parsed form
+}
+
+type vWantC struct {
+	key  string
+	want any // []any of strings or map[string]any of strings: what a []string / map[string]string field must receive
+	kind string
+}
+
+type vWant struct {
+	key    string
+	nested bool // the reference sits under <key>::v and is decoded into struct{V string}
+	text   string
+	kind   string // YAML kind of the provider text
 }
 
 var (
@@ -480,6 +495,17 @@ func (c *vCase) run(out *vOut, idx int) (stuck bool) {
 	for _, k := range keys {
 		out.Linef("op tok %s %s", vHex(k), vEncToks(c.toks[k]))
 	}
+	for _, w := range c.wantc {
+		out.Linef("op wantc %s %s %s", vHex(w.key), vEnc(w.want), w.kind)
+	}
+	for _, w := range c.wants {
+		op := "want"
+		if w.nested {
+			op = "wantn"
+		}
+		out.Linef("op %s %s %s %s", op, vHex(w.key), vHex(w.text), w.kind)
+		out.Linef("stat want_%s 1", w.kind)
+	}
 
 	// the real resolver
 	calls := &vCalls{budget: int64(vEnvInt("VERIF_C12_CALL_BUDGET", 400000))}
@@ -635,7 +661,48 @@ func (c *vCase) run(out *vOut, idx int) (stuck bool) {
 	}
 	sort.Strings(top)
 	for _, k := range top {
-		out.Linef("obs typed %s %s", vHexS(k), vTyped(conf, k, strmap[k]))
+		line, fields, panics, anyLeak := vTyped(conf, k, strmap[k])
+		out.Linef("obs typed %s %s", vHexS(k), line)
+		// direct oracles on typed decoding
+		for _, tgt := range panics {
+			out.Linef("viol sig=C12/typed/panic/%s key=%s", tgt, vHexS(k))
+		}
+		if anyLeak {
+			out.Linef("viol sig=C12/typed/expanded-value-leaked/any-field key=%s", vHexS(k))
+		}
+		for _, w := range c.wantc {
+			if w.key != k {
+				continue
+			}
+			fld, tname := "ss", "string-slice-element"
+			if _, isMap := w.want.(map[string]any); isMap {
+				fld, tname = "ms", "string-map-value"
+			}
+			if fields[fld] != vEnc(w.want) {
+				out.Linef("viol sig=C12/typed/string-field-lost-original-text/%s/%s key=%s want=%s got=%s", w.kind, tname, vHexS(k), vEnc(w.want), fields[fld])
+			}
+		}
+		for _, w := range c.wants {
+			if w.key != k {
+				continue
+			}
+			want := "s" + vHexS(w.text) + ";"
+			targets := [][2]string{{"s", "string"}, {"ns", "named-string"}, {"ps", "ptr-string"}}
+			if w.nested {
+				targets = [][2]string{{"n", "nested-struct-string"}}
+			}
+			for _, t := range targets {
+				if fields[t[0]] != want {
+					out.Linef("viol sig=C12/typed/string-field-lost-original-text/%s/%s key=%s want=%s got=%s", w.kind, t[1], vHexS(k), want, fields[t[0]])
+				}
+			}
+		}
+	}
+	if vHasExpanded(strmap) {
+		out.Linef("viol sig=C12/typed/expanded-value-leaked/tostringmap")
+	}
+	if len(c.wants) > 0 {
+		out.Linef("stat typed_wants %d", len(c.wants))
 	}
 
 	// ---- direct oracles on the implementation ----
@@ -805,12 +872,45 @@ func vAsStringTarget(v any) (string, bool) {
 }
 
 // Unmarshal the top-level key into string / int / bool fields through the real Conf.Unmarshal
-func vTyped(conf *Conf, key string, plain any) string {
+type vNamedString string
+
+// vText: a struct type with UnmarshalText (like component.ID): NOT a string target for useExpandValue
+type vText struct{ s string }
+
+func (t *vText) UnmarshalText(b []byte) error {
+	t.s = string(b)
+	return nil
+}
+
+func vHasExpanded(v any) bool {
+	switch x := v.(type) {
+	case expandedValue:
+		return true
+	case []any:
+		for _, e := range x {
+			if vHasExpanded(e) {
+				return true
+			}
+		}
+	case map[string]any:
+		for _, e := range x {
+			if vHasExpanded(e) {
+				return true
+			}
+		}
+	}
+	return false
+}
+
+// vTyped decodes the top-level key through the real Conf.Unmarshal into fields of type string, named string, *string,
+// struct{V string `mapstructure:"v"`}, any, int, bool. Returns the obs fields and the targets that panicked / leaked.
+func vTyped(conf *Conf, key string, plain any) (line string, fields map[string]string, panics []string, anyLeak bool) {
 	tag := reflect.StructTag(`mapstructure:"` + key + `"`)
-	dec := func(t reflect.Type) (v reflect.Value, ok bool) {
+	dec := func(name string, t reflect.Type) (v reflect.Value, ok bool) {
 		defer func() {
 			if r := recover(); r != nil {
 				ok = false
+				panics = append(panics, name)
 			}
 		}()
 		st := reflect.StructOf([]reflect.StructField{{Name: "V", Type: t, Tag: tag}})
@@ -820,28 +920,86 @@ func vTyped(conf *Conf, key string, plain any) string {
 		}
 		return p.Elem().Field(0), true
 	}
-	s := "err"
-	if v, ok := dec(reflect.TypeOf("")); ok {
-		s = "s" + vHexS(v.String()) + ";"
+	f := map[string]string{"s": "err", "ns": "err", "ps": "err", "n": "err", "ss": "err", "ms": "err", "fl": "err", "tx": "err", "a": "err", "i": "err", "b": "err"}
+	if v, ok := dec("string-slice", reflect.TypeOf([]string(nil))); ok {
+		l := make([]any, v.Len())
+		for i := range l {
+			l[i] = v.Index(i).String()
+		}
+		f["ss"] = vEnc(l)
 	}
-	i := "err"
-	switch plain.(type) {
-	case nil, bool, int, int64, int32, string, []any, map[string]any:
-		if v, ok := dec(reflect.TypeOf(int(0))); ok {
-			i = strconv.FormatInt(v.Int(), 10)
+	if v, ok := dec("string-map", reflect.TypeOf(map[string]string(nil))); ok {
+		m := map[string]any{}
+		for _, k := range v.MapKeys() {
+			m[k.String()] = v.MapIndex(k).String()
+		}
+		f["ms"] = vEnc(m)
+	}
+	switch x := plain.(type) {
+	case nil, bool, int, int64, int32, float64, float32, string, []any, map[string]any:
+		big := false
+		if i, ok := x.(int); ok && (i >= 1<<53 || i <= -(1<<53)) {
+			big = true
+		}
+		if big {
+			f["fl"] = "skip"
+		} else if v, ok := dec("float64", reflect.TypeOf(float64(0))); ok {
+			f["fl"] = fmt.Sprintf("B%016x", math.Float64bits(v.Float()))
+		}
+		if v, ok := dec("text-unmarshaler", reflect.TypeOf(vText{})); ok {
+			f["tx"] = "s" + vHexS(v.Field(0).String()) + ";"
 		}
 	default:
-		i = "skip"
+		f["fl"], f["tx"], f["ss"], f["ms"] = "skip", "skip", "skip", "skip"
 	}
-	b := "err"
-	if v, ok := dec(reflect.TypeOf(true)); ok {
-		if v.Bool() {
-			b = "t"
+	if v, ok := dec("string", reflect.TypeOf("")); ok {
+		f["s"] = "s" + vHexS(v.String()) + ";"
+	}
+	if v, ok := dec("named-string", reflect.TypeOf(vNamedString(""))); ok {
+		f["ns"] = "s" + vHexS(v.String()) + ";"
+	}
+	if v, ok := dec("ptr-string", reflect.TypeOf((*string)(nil))); ok {
+		if v.IsNil() {
+			f["ps"] = "nil"
 		} else {
-			b = "f"
+			f["ps"] = "s" + vHexS(v.Elem().String()) + ";"
 		}
 	}
-	return fmt.Sprintf("s=%s i=%s b=%s", s, i, b)
+	type inner struct {
+		V string `mapstructure:"v"`
+	}
+	switch plain.(type) {
+	case nil, bool, int, int64, int32, float64, float32, string, []any, map[string]any:
+		if v, ok := dec("nested-struct-string", reflect.TypeOf(inner{})); ok {
+			f["n"] = "s" + vHexS(v.Field(0).String()) + ";"
+		}
+	default:
+		f["n"] = "skip" // a Go struct value (time.Time): mapstructure's struct-to-struct path is not modelled
+	}
+	np := len(panics)
+	if v, ok := dec("any-field", reflect.TypeOf((*any)(nil)).Elem()); ok {
+		x := v.Interface()
+		f["a"] = vEnc(x)
+		anyLeak = vHasExpanded(x)
+	} else if len(panics) > np {
+		f["a"] = "panic"
+	}
+	switch plain.(type) {
+	case nil, bool, int, int64, int32, string, []any, map[string]any:
+		if v, ok := dec("int", reflect.TypeOf(int(0))); ok {
+			f["i"] = strconv.FormatInt(v.Int(), 10)
+		}
+	default:
+		f["i"] = "skip"
+	}
+	if v, ok := dec("bool", reflect.TypeOf(true)); ok {
+		if v.Bool() {
+			f["b"] = "t"
+		} else {
+			f["b"] = "f"
+		}
+	}
+	return fmt.Sprintf("s=%s ns=%s ps=%s n=%s ss=%s ms=%s fl=%s tx=%s a=%s i=%s b=%s", f["s"], f["ns"], f["ps"], f["n"], f["ss"], f["ms"], f["fl"], f["tx"], f["a"], f["i"], f["b"]), f, panics, anyLeak
 }
 
 // ---------------------------------------------------------------------------------------------
@@ -1170,6 +1328,17 @@ func vCorpus() []*vCase {
 	inl("k0: ${env:X}:4317")
 	inl("k1: pa$$word\nk2: $\nk3: a$b")
 	inl("{k0: \"a $${env:X} ${env:X}\", k1: [1, \"${env:X}\"]}", "k0: ${env:X}", "n: {m: \"${env:X}$$\"}")
+	// a whole-value reference to a YAML null / unset variable / number / bool: string-kind targets get the original text,
+	// an `any` field gets the typed value (no panic), nothing leaks out of a map-valued provider result
+	for _, kt := range [][2]string{{"null", "null"}, {"null", "~"}, {"null", "NULL"}, {"empty", ""}, {"number", "0x10"}, {"bool", "true"}} {
+		c := mk("corpus", "", "${env:T}", func(c *vCase) { c.setYAML("env", "T", kt[1]) })
+		c.srcs = []any{map[string]any{"k0": "${env:T}", "k1": map[string]any{"v": "${env:T}"}}}
+		c.wants = []vWant{{key: "k0", text: kt[1], kind: kt[0]}, {key: "k1", nested: true, text: kt[1], kind: kt[0]}}
+	}
+	mk("corpus", "", "${env:M}", func(c *vCase) {
+		c.setYAML("env", "M", "{a: \"${env:X}\", b: [\"${env:X}\", {c: \"${env:X}\"}], n: 1}")
+		c.setYAML("env", "X", "123")
+	})
 	return cs
 }
 
@@ -1317,12 +1486,76 @@ func vInlineText(c *vCase, i int, text string) {
 	c.inline[i] = text
 }
 
+var vYAMLKinds = []struct {
+	kind  string
+	texts []string
+}{
+	{"null", []string{"null", "~", "Null", "NULL"}},
+	{"bool", []string{"true", "false", "True"}},
+	{"number", []string{"123", "0x10", "1.5", "-7", "1e3", "0777", "0"}},
+	{"empty", []string{""}},
+	{"string", []string{"foo", "a b", "nil", "n/a"}},
+	{"map", []string{"{a: 1}", "{v: x}"}},
+	{"list", []string{"[1, 2]", "[]"}},
+	{"timestamp", []string{"2001-01-01"}},
+}
+
+// vGenTyped: "its original text when assigned to a string field". k0/k2 are whole-value references, k1::v is one under
+// a nested key; the provider texts parse to every YAML kind, one third of them to null.
+func vGenTyped(c *vCase, rnd *rand.Rand) {
+	pick := func(name string) (string, string) {
+		k := vYAMLKinds[rnd.IntN(len(vYAMLKinds))]
+		if rnd.IntN(3) == 0 {
+			k = vYAMLKinds[0]
+		}
+		t := k.texts[rnd.IntN(len(k.texts))]
+		c.setYAML("env", name, t)
+		return t, k.kind
+	}
+	ref := func(name string) string {
+		if c.defaultScheme != "" && rnd.IntN(3) == 0 {
+			return "${" + name + "}"
+		}
+		return "${env:" + name + "}"
+	}
+	m := map[string]any{}
+	t0, kd0 := pick("T0")
+	m["k0"] = ref("T0")
+	c.wants = append(c.wants, vWant{key: "k0", text: t0, kind: kd0})
+	if rnd.IntN(2) == 0 {
+		t1, kd1 := pick("T1")
+		m["k1"] = map[string]any{"v": ref("T1"), "w": rnd.IntN(5)}
+		c.wants = append(c.wants, vWant{key: "k1", nested: true, text: t1, kind: kd1})
+	}
+	if rnd.IntN(2) == 0 {
+		t2, kd2 := pick("T2")
+		m["k2"] = ref("T2")
+		c.wants = append(c.wants, vWant{key: "k2", text: t2, kind: kd2})
+	}
+	if rnd.IntN(2) == 0 {
+		// stringy containers: a []string and a map[string]string field whose elements are whole-value references
+		m["k3"] = []any{ref("T0"), "lit", ref("T0")}
+		c.wantc = append(c.wantc, vWantC{key: "k3", want: []any{t0, "lit", t0}, kind: kd0})
+		m["k4"] = map[string]any{"h": ref("T0"), "g": "lit"}
+		c.wantc = append(c.wantc, vWantC{key: "k4", want: map[string]any{"h": t0, "g": "lit"}, kind: kd0})
+	}
+	if rnd.IntN(3) == 0 {
+		// a map-valued provider result with references inside (nested expanded values), next to it
+		c.setYAML("env", "M", "{a: \"${env:T0}\", b: [\"${env:T0}\", {c: \"${env:T0}\"}], v: \"${env:T0}\"}")
+		m["a"] = "${env:M}"
+	}
+	c.srcs = []any{m}
+}
+
 func vGenCase(idx int, rnd *rand.Rand) *vCase {
 	c := vNewCase()
 	if rnd.IntN(2) == 0 {
 		c.defaultScheme = "env"
 	}
-	switch idx % 5 {
+	switch idx % 6 {
+	case 5: // whole-value references to provider texts of every YAML kind, decoded into string-kind targets
+		c.kind = "typed"
+		vGenTyped(c, rnd)
 	case 4: // reference chains through provider values, placed in lists (non-last positions), map values, nested
 		c.kind = "chain"
 		vGenChain(c, rnd)
